@@ -48,3 +48,22 @@ Definition class_of (c : rdr * bytes * list record * option cerr) : N :=
   | COk _ => 0%N | CErr EDelim => 1%N | CErr (EParse BareQuote) => 2%N | CErr (EParse BadQuote) => 3%N
   | CErr (EMismatch _ _ _) => 4%N | CErr EXtabInternal => 5%N
   end.
+
+(* ---- JSON record-reader layer (C18/ModelJson.v) against `mlr --ijson --ojsonl cat` on documents GENERATED FROM an abstract
+   stream of top-level values: on success the "id" fields of the records read, in order; on failure the kind named in
+   "valid but unmillerable JSON ... got <kind>" (Some (Some kind)) or any other `mlr:` error (Some None = decoder error) *)
+From Miller Require Import C18.ModelJson.
+Fixpoint nlist_eqb (a b : list N) : bool :=
+  match a, b with
+  | [], [] => true
+  | x :: a', y :: b' => N.eqb x y && nlist_eqb a' b'
+  | _, _ => false
+  end.
+Definition chkj (c : list jtop * list N * option (option N)) : bool :=
+  let '(vs, ids, e) := c in
+  match json_layer vs, e with
+  | JOk l, None => nlist_eqb l ids
+  | JErr (JUnmillerable k), Some (Some k') => N.eqb k k'
+  | JErr JDecode, Some None => true
+  | _, _ => false
+  end.
